@@ -390,8 +390,9 @@ class WFSA:
         )
 
     def accessible(self):
-        stack = list(self.start)
-        visited = set(self.start)
+        # states with a zero initial weight (push and _trim leave such entries) are not initial
+        stack = [q for q, _ in self.I]
+        visited = set(stack)
         while stack:
             P = stack.pop()
             for _, Q, _ in self.arcs(P):
